@@ -11,3 +11,4 @@ RULE = ("all one-rule monotone grammars up to a node bound x all inputs over {a,
         "grammars over all combinators, named and unnamed; non-trivial = non-empty root result or failing Sentence parse; "
         "distinct = distinct case text")
 CORRESPONDENCE = "engine model (coq/Engine.v, eng_expected) = implementation on the projection of this property"
+FAST = 3
